@@ -259,6 +259,7 @@ def run(ctx):
                 nm = rnd.choice(names)
                 cand = [[nm], [nm[:max(1, len(nm) // 2)] + b'*'], [b'*' + nm[-3:]], [b'*/' + nm.rsplit(b'/', 1)[-1]] if b'/' in nm else [b'?' * len(nm)],
                         [b'no-such*'], [nm, b'*.txt'], [nm.replace(nm[:1], b'?', 1)], [nm.upper() if nm.upper() != nm else nm.lower()]]
+                cand += [[listing.glob_from(rnd, nm)], [listing.glob_from(rnd, nm), listing.glob_from(rnd, rnd.choice(names))], [listing.glob_from(rnd, nm)]]
                 pats = rnd.choice(cand)
                 if any(b'*' in p[:1] and False for p in pats):
                     continue
@@ -270,13 +271,22 @@ def run(ctx):
         # overwrite policies with pre-existing files
         files = [e for e in entries if e['kind'] == 'file' and e.get('npath')]
         if len(files) >= 2:
-            for cmd, answers in (('x', b'y\nn\ny\nn\n' * 6), ('x', b'n\n' * 20), ('x', b'a\n'), ('x', b's\n'), ('x', b'q\n\nzz\ny\n' + b'y\n' * 20), ('xf', b''), ('xq', b''),
+            # answers typed as whole words or sentences: only the first character of a line counts and the rest of the line,
+            # however long (lengths around the sizes a line buffer might have), belongs to that answer and to no later prompt
+            def wordy_script():
+                out = []
+                for _ in range(24):
+                    ln = rnd.choice([2, 3, 14, 15, 16, 17, 31, 32, 33, 63, 64, 65, 300, 5000])
+                    out.append((rnd.choice('ynYN') + ''.join(rnd.choice('ynas ') for _ in range(ln - 1))).encode())
+                return b'\n'.join(out) + b'\n'
+            for wordy, (cmd, answers) in [(True, ('x', wordy_script())), (True, ('xv', wordy_script())),
+                                          (True, ('x', b'No, keep that one as it is\nyes, replace this one please\n' * 12))] + [(False, x) for x in (('x', b'y\nn\ny\nn\n' * 6), ('x', b'n\n' * 20), ('x', b'a\n'), ('x', b's\n'), ('x', b'q\n\nzz\ny\n' + b'y\n' * 20), ('xf', b''), ('xq', b''),
                                  ('x', b'Y\nN\nA\n'), ('x', b'n\ns\n'),
                                  # every quiet level implies 'f' (also level 0), whatever the order of the option letters and
                                  # whatever waits on standard input
                                  ('xq0', b''), ('xq1', b'n\n' * 9), ('xq2', b''), ('eq0', b'n\n' * 9), ('xq0v', b''), ('xvq0', b's\n'),
-                                 ('xq0f', b''), ('ef', b'n\n' * 9), ('xfq1', b'')):
-                if ctx.tier == 'quick' and rnd.random() < 0.6:
+                                 ('xq0f', b''), ('ef', b'n\n' * 9), ('xfq1', b''))]:
+                if ctx.tier == 'quick' and rnd.random() < 0.6 and not wordy:
                     continue
                 pre = {}
                 for e in rnd.sample(files, min(len(files), rnd.randrange(1, 4))):
